@@ -60,6 +60,7 @@ fn main() {
         match (prop, fam) {
             ("C16", "one") => c16::worker_one(arg),
             ("C16", _) => c16::worker(fam, start, end, step, arg),
+            ("C02", _) => c02::worker(fam, start, end, step, arg),
             _ => panic!("unknown worker"),
         }
         return;
